@@ -25,7 +25,9 @@ def bounds(tier):
 def configs(tier, seed):
     q = 0 if tier == "quick" else 1
     out = []
-    grid = [(4, 1, 2), (4, 2, 2), (4, 3, 2), (8, 2, 1), (8, 3, 1), (8, 5, 1), (4, 1, 3), (4, 2, 3), (4, 1, 4)] + ([(8, 3, 2), (16, 4, 1), (4, 3, 3)] if q else [])
+    grid = [(4, 1, 2), (4, 2, 2), (4, 3, 2), (8, 2, 1), (8, 3, 1), (8, 5, 1), (4, 1, 3), (4, 2, 3), (4, 1, 4),
+            (6, 2, 2), (5, 1, 2), (7, 3, 1)] + (  # budgets that are not powers of two: ranking depth floor(log2 n)
+[(8, 3, 2), (16, 4, 1), (4, 3, 3)] if q else [])
     for n, hm, T in grid:
         for part in ["B", "RB", "DB", "K2"]:
             if part in ("DB", "K2") and not (n == 4 and hm == 3):
@@ -33,7 +35,7 @@ def configs(tier, seed):
             out.append({"name": "vroom-%s-n%d-h%d-T%d" % (part, n, hm, T), "algo": "VROOM", "part": part, "d": 1, "T": T,
                         "params": {"n": n, "h_max": hm, "b": 1, "f_max": 1}, "cost": 2 ** (n // 2) * T})
     # Mode B: concrete prefix (concrete draws, objective-like rewards), then symbolic rounds
-    for (n, hm, P) in ((8, 3, 5), (8, 2, 7)) + (((16, 4, 9),) if q else ()):
+    for (n, hm, P) in ((8, 3, 5), (8, 2, 7), (12, 3, 6)) + (((16, 4, 9), (37, 4, 9)) if q else ()):
         for part in ("B", "RB"):
             for sd in (0, 1):
                 k = 2
